@@ -289,6 +289,14 @@ R23 = {
  "C03": "the FASTQ quality line that is decoded is the one whose length was found equal to the number of letters",
 }
 
+# Clauses added in round 25 (DESIGN.md §10.24).
+R25 = {
+ "C06": "a clipped span is handed to Slice only under a test that found its bounds in order",
+ "C08": "every aligner body is handed the reference's letters first and the query's second",
+ "C09": "every aligner body is handed the reference's letters first and the query's second",
+ "C15": "every trapezoid put on the merger's list is counted before the function returns or inserts again",
+}
+
 NOT_APPLICABLE = {
 }
 
@@ -351,6 +359,10 @@ def main():
                 tech = tech + "; " + R23[pid]
                 text = text + " Round 23 (DESIGN §10.22) adds: " + R23[pid] + "."
                 ref = ref + ", §10.22"
+            if pid in R25:
+                tech = tech + "; " + R25[pid]
+                text = text + " Round 25 (DESIGN §10.24) adds: " + R25[pid] + "."
+                ref = ref + ", §10.24"
             text = text + " The thorough tier also replays the independently written behaviour-preserving refactorings of /verif/benign (DESIGN §10.8, §10.9, §10.11, §10.13, §10.15, §10.17, §10.19, §10.21, §10.23) and fails if one of them is reported."
             checks.append({
                 "property_id": pid,
